@@ -54,6 +54,47 @@ theorem blocksNeeded_small (f : FImg) (hk : (f.chunks.map (·.1)).Pairwise (· <
   rw [if_neg (by omega), chunks_length f hk]
   split <;> rfl
 
+/-- the group numbers `blocks_needed` counts are the group numbers of the chunks from index 256 on -/
+theorem grp_eq (f : FImg) (hk : (f.chunks.map (·.1)).Pairwise (· < ·)) :
+    (f.chunks.filter (fun c => c.1 ≥ 256)).map (fun c => c.1 / 256) = grp f f.end_ := by
+  have hψ : ∀ l : List Nat, (l.filter (fun k => decide (256 ≤ k) && hasChunk f k)).map (· / 256) =
+      l.filterMap (fun k => if 256 ≤ k ∧ hasChunk f k = true then some (k / 256) else none) := by
+    intro l
+    induction l with
+    | nil => rfl
+    | cons a l ih =>
+      rw [List.filter_cons, List.filterMap_cons]
+      by_cases h : 256 ≤ a ∧ hasChunk f a = true
+      · rw [if_pos h]
+        have : (decide (256 ≤ a) && hasChunk f a) = true := by simp [h.1, h.2]
+        rw [this]; simp only [↓reduceIte, List.map_cons]; rw [ih]
+      · rw [if_neg h]
+        have : (decide (256 ≤ a) && hasChunk f a) = false := by
+          rcases Classical.not_and_iff_not_or_not.mp h with h1 | h1
+          · simp [h1]
+          · simp [h1]
+        rw [this]; simp only [Bool.false_eq_true, ↓reduceIte]; exact ih
+  unfold grp
+  rw [hψ]
+  conv => lhs; rw [← chunks_enum f hk]
+  rw [List.filter_filterMap, List.map_filterMap]
+  apply filterMap_congr_mem
+  intro k _
+  unfold hasChunk
+  cases f.chunks.lookup k with
+  | none => simp
+  | some d =>
+    by_cases h : 256 ≤ k
+    · simp [h]; exact ⟨k, ⟨rfl, h⟩, rfl⟩
+    · simp [h]; omega
+
+/-- **`blocks_needed` is the number of blocks `write_file` takes** -/
+theorem blocksNeeded_eq (f : FImg) (hk : (f.chunks.map (·.1)).Pairwise (· < ·)) : blocksNeeded f = allocCount f f.end_ := by
+  unfold blocksNeeded allocCount
+  simp only []
+  rw [chunks_length f hk, grp_eq f hk]
+  by_cases h1 : f.end_ > 1 <;> by_cases h2 : f.end_ > 256 <;> simp only [h1, h2, ↓reduceIte] <;> omega
+
 theorem lookup_of_mem {β : Type} : ∀ (l : List (Nat × β)), (l.map (·.1)).Pairwise (· < ·) → ∀ c ∈ l, l.lookup c.1 = some c.2
   | [], _, c, hc => by cases hc
   | (k, v) :: l, hp, c, hc => by
@@ -86,6 +127,7 @@ structure PutOk (f : FImg) (time : Bytes) : Prop where
   clen : ∀ c ∈ f.chunks, c.2.length ≤ 512
   cbytes : ∀ c ∈ f.chunks, ∀ x ∈ c.2, x < 256
   eof : 0 < f.eof ∧ f.eof ≤ 0xffffff
+  endle : f.end_ ≤ 128 * 256
   fsType : 1 ≤ f.fsType.length ∧ f.fsType.getD 0 0 < 256
   aux : 2 ≤ f.aux.length ∧ f.aux.getD 0 0 < 256 ∧ f.aux.getD 1 0 < 256
   version : 1 ≤ f.version.length ∧ f.version.getD 0 0 < 256
